@@ -35,7 +35,8 @@ def apply(d, m):
 
 
 def run_suite(d):
-  env = dict(os.environ, PYTHONPATH=d)
+  os.makedirs(os.path.join(d, '_tmp'), exist_ok=True)      # the suite leaves temporary directories behind: inside the scratch copy, removed with it
+  env = dict(os.environ, PYTHONPATH=d, TMPDIR=os.path.join(d, '_tmp'))
   r = subprocess.run(['/venv/bin/python', '-m', 'pytest', '-q', '-p', 'no:cacheprovider', '-x', '--timeout=300',
                       'tests/config_parser_test.py', 'tests/config_test.py', 'tests/selector_map_test.py',
                       'tests/resource_reader_test.py', '--deselect', 'tests/config_test.py::ConfigTest::testConfigStrDynamicRegistration',
